@@ -15,7 +15,7 @@ class Gen:
         all_feats = [
             'int', 'real', 'bv', 'str', 'arr', 'fp', 'dt', 'let', 'quant',
             'deffun', 'annot', 'comments', 'quoted', 'longtok', 'empty',
-            'csa', 'recfun', 'uf', 'named'
+            'csa', 'recfun', 'uf', 'named', 'unicode'
         ]
         if feats is None:
             k = rng.randint(2, 7)
@@ -36,6 +36,8 @@ class Gen:
     def fresh(self, base):
         self.nsym += 1
         r = self.rng
+        if 'unicode' in self.feats and 'quoted' in self.feats and r.random() < 0.2:
+            return f'|{base}\u00e9 \u4e16{self.nsym}|'
         if 'quoted' in self.feats and r.random() < 0.25:
             body = r.choice([
                 f'{base} {self.nsym}', f'{base}({self.nsym})',
@@ -105,10 +107,15 @@ class Gen:
                 return '#x' + format(v, f'0{w // 4}x')
             return f'(_ bv{v} {w})'
         if sort == 'String':
-            return r.choice([
+            lits = [
                 '""', '"a"', '"abc"', '"a b"', '"x""y"', '"(;"', '"\\x41"',
-                '"hello world foo"', '"a;b"'
-            ])
+                '"hello world foo"', '"a;b"',
+                '"say ""hi"" to all of you"',
+                '"assertion ""x > 0"" failed in iteration 7 of the main loop"',
+            ]
+            if 'unicode' in self.feats:
+                lits += ['"caf\u00e9"', '"\u00fcber \u4e16\u754c"']
+            return r.choice(lits)
         if sort == 'RoundingMode':
             return r.choice(['RNE', 'RTZ', 'roundNearestTiesToEven'])
         if sort in ('(_ FloatingPoint 8 24)', 'Float32'):
@@ -327,6 +334,10 @@ class Gen:
         r = self.rng
         f = self.feats
         head = []
+        if 'unicode' in f and r.random() < 0.6:
+            head.append(r.choice(['; Author: Jos\u00e9',
+                                  '; Author: Jos\u00e9 M\u00fcller (generator)',
+                                  '; \u4e16\u754c benchmark']))
         if r.random() < 0.4:
             head.append('(set-info :status unknown)')
         if r.random() < 0.7:
